@@ -15,8 +15,9 @@ deriving DecidableEq, Repr, Inhabited
 `none'`/`imm` — `None` or an immutable value (default literal, explicit default, type default);
 `shared c` — one mutable object handed out every time (an explicit mutable `default_value`, or — before the repair —
 the factory default captured once at declaration);
-`factory` — `eType()` evaluated on every call. -/
-inductive Src | none' | imm (i : Int) | shared (c : Nat) | factory
+`factory init` — a new mutable value on every call (`eType()` for `type_as_factory`, or a default literal parsed into a
+list), starting with contents `init`. -/
+inductive Src | none' | imm (i : Int) | shared (c : Nat) | factory (init : List Int)
 deriving DecidableEq, Repr, Inhabited
 
 structure St where
@@ -31,7 +32,8 @@ def dflt (src : Nat → Src) (s : St) (f : Nat) : V × St :=
   | .none' => (.none, s)
   | .imm i => (.imm i, s)
   | .shared c => (.cell c, s)
-  | .factory => (.cell s.next, { s with next := s.next + 1 })
+  | .factory init =>
+    (.cell s.next, { s with next := s.next + 1, heap := fun c => if c = s.next then init else s.heap c })
 
 def St.setHolder (s : St) (o f : Nat) (v : V) : St :=
   { s with holder := fun o' f' => if o' = o ∧ f' = f then some v else s.holder o' f' }
